@@ -65,7 +65,8 @@ def _extra(lines, verdicts):
     h["mixed_initial_cell_from_plain_node"] = _plain_inits(lines)
     h["f17_uniform"] = sum(1 for v in verdicts if v and "class=stale-cached-metadata-without-ext ops" in v)
     h["f17_mixed_reprepare_ignored"] = sum(1 for v in verdicts if v and "shape=re-preparation-ignored" in v)
-    h["f17_mixed_prepare_answer_discarded"] = sum(1 for v in verdicts if v and "shape=answer-at-preparation-discarded" in v)
+    h["f25_prepare_answer_discarded"] = sum(1 for v in verdicts if v and "class=foreign-cached-metadata-without-ext" in v)
+    h["f17_f25_both_shapes_in_one_history"] = sum(1 for v in verdicts if v and "shape=both-first-hit-decides" in v)
     h["not_run_environment"] = sum(1 for v in verdicts if v and v.startswith("ok notrun="))
     return {"history_content": h}
 
@@ -95,7 +96,7 @@ def _post(lines, verdicts):
             "Session::prepare id mismatches": (obs.count("/e:mismatch"), n // 400),
             "Session::prepare all-failed": (obs.count("/e:allfailed"), n // 600),   # 2 fixed corpus cases + seeded ones
             "initial cells taken from a node without the extension (mixed clusters)": (_plain_inits(lines), n // 100),
-            "F17 second shape (answer at preparation discarded, mixed clusters)": (sum(1 for v in verdicts if v and "shape=answer-at-preparation-discarded" in v), n // 300),
+            "F25 histories (answer at preparation discarded, mixed clusters)": (sum(1 for v in verdicts if v and "class=foreign-cached-metadata-without-ext" in v), n // 300),
             "Session::prepare cases judged": (sum(1 for l, v in zip(lines, verdicts) if l.startswith("P ") and v == "ok"), n // 60),
             "known-finding histories": (sum(1 for v in verdicts if v and "class=stale-cached-metadata-without-ext" in v), 1),
         }
@@ -133,9 +134,10 @@ SPEC = {
         "handle_result_metadata_new_id and reprepare are one atomic step of the interleaving model",
         "C14_faithful premises: the metadata id determines the columns, ids are non-empty, distinct statements have "
         "distinct ids and texts; it is stated for calls outside the QUADRANT (no extension and "
-        "use_cached_result_metadata on), which is larger than the known-finding class F17 (quadrant AND the node announced other columns than the "
-        "rows were decoded with: in a re-preparation, or — clusters whose nodes announce different columns — in its "
-        "answer at preparation, which Session::prepare discarded); C14_faithful_refuted is the counterexample inside the class; for the "
+        "use_cached_result_metadata on), which is larger than the two known-finding classes: F17 stale-cached-metadata-without-ext (quadrant AND a "
+        "re-preparation of the node announced other columns than the rows were decoded with) and F25 "
+        "foreign-cached-metadata-without-ext (quadrant AND, in a cluster whose nodes announce different columns, the "
+        "node's own answer at preparation announced other columns and was discarded by Session::prepare); C14_faithful_refuted is the counterexample inside the class; for the "
         "rest of the quadrant only C14_announced_in_quadrant (nothing is stored, rows without metadata are decoded with "
         "the columns of preparation; all connections without the extension) is proved",
         "environment: only session / mock-cluster start failures, exec:* request errors (timeout, empty plan, pool), "
